@@ -2,11 +2,136 @@
 //! layout monitors ("every shipped layout") cover them too.  Scans <repo>/src/layouts/mod.rs for
 //! `mod m; pub use self::m::T;` where src/layouts/m.rs declares the unit struct `pub struct T;` and implements
 //! `KeyboardLayout for T`.  Anything it does not understand is ignored – this script never fails the build.
+//!
+//! The same for constructors: `pub [const] fn name(<only bool arguments>) -> Self|Type` other than `new` in an inherent
+//! impl of ScancodeSet1, ScancodeSet2 or Ps2Decoder yields further start states of those decoders (one per combination
+//! of argument values); the decoder monitors are repeated from each of them.  And for switches: `pub fn name(&mut self,
+//! <only bool arguments>)` other than the known operations in an inherent impl of Keyboard is a further operation for
+//! the hostile event histories.
 use std::{env, fs, path::Path};
 
 const KNOWN: [&str; 10] = [
     "Us104Key", "Uk105Key", "De105Key", "Azerty", "No105Key", "FiSe105Key", "Jis109Key", "Colemak", "Dvorak104Key", "DVP104Key",
 ];
+
+/// (type name of the enclosing inherent impl, fn name, has &mut self, argument types, return type) of every `pub fn`
+fn pub_fns(src: &str) -> Vec<(String, String, bool, Vec<String>, String)> {
+    let mut out = Vec::new();
+    // drop line comments so that examples in docs are not taken for code
+    let clean: String = src.lines().map(|l| match l.find("//") { Some(i) => &l[..i], None => l }).collect::<Vec<_>>().join("\n");
+    let mut current: Option<String> = None;
+    let bytes = clean.as_bytes();
+    let mut line_start = 0usize;
+    while line_start < bytes.len() {
+        let line_end = clean[line_start..].find('\n').map(|i| line_start + i).unwrap_or(bytes.len());
+        let line = &clean[line_start..line_end];
+        if line.starts_with("impl") {
+            // `impl<L, S> Keyboard<L, S>` / `impl Ps2Decoder {` are inherent; `impl X for Y` is not
+            let header_end = clean[line_start..].find('{').map(|i| line_start + i).unwrap_or(line_end);
+            let header = &clean[line_start..header_end];
+            current = None;
+            if !header.contains(" for ") {
+                let mut h = header["impl".len()..].trim_start();
+                if h.starts_with('<') {
+                    let mut depth = 0i32;
+                    let mut cut = 0usize;
+                    for (i, c) in h.char_indices() {
+                        if c == '<' { depth += 1; }
+                        if c == '>' { depth -= 1; if depth == 0 { cut = i + 1; break; } }
+                    }
+                    h = h[cut..].trim_start();
+                }
+                let name: String = h.chars().take_while(|c| c.is_ascii_alphanumeric() || *c == '_').collect();
+                if !name.is_empty() {
+                    current = Some(name);
+                }
+            }
+        } else if line.starts_with('}') {
+            current = None;
+        } else if let Some(ty) = &current {
+            let t = line.trim_start();
+            let rest = t.strip_prefix("pub const fn ").or_else(|| t.strip_prefix("pub fn "));
+            if let (Some(_), true) = (rest, line.starts_with("    ") && !line.starts_with("     ")) {
+                // the signature may span lines: take everything up to the body's brace
+                let sig_start = line_start + (line.len() - t.len());
+                let sig_end = clean[sig_start..].find('{').map(|i| sig_start + i).unwrap_or(line_end);
+                let sig = clean[sig_start..sig_end].replace('\n', " ");
+                let sig = sig.trim_start_matches("pub const fn ").trim_start_matches("pub fn ");
+                if let (Some(po), Some(pc)) = (sig.find('('), sig.rfind(')')) {
+                    let name = sig[..po].trim().to_string();
+                    let args_s = &sig[po + 1..pc];
+                    let ret = sig[pc + 1..].trim().trim_start_matches("->").trim().to_string();
+                    let mut has_mut_self = false;
+                    let mut has_other_self = false;
+                    let mut args = Vec::new();
+                    for a in args_s.split(',') {
+                        let a = a.trim();
+                        if a.is_empty() { continue; }
+                        if a == "&mut self" { has_mut_self = true; continue; }
+                        if a == "&self" || a == "self" || a == "mut self" { has_other_self = true; continue; }
+                        args.push(a.split(':').nth(1).unwrap_or("?").trim().to_string());
+                    }
+                    if !has_other_self && name.chars().all(|c| c.is_ascii_alphanumeric() || c == '_') && !name.contains('<') {
+                        out.push((ty.clone(), name, has_mut_self, args, ret));
+                    }
+                }
+            }
+        }
+        line_start = line_end + 1;
+    }
+    out
+}
+
+fn bool_combos(n: usize) -> Vec<Vec<bool>> {
+    (0..(1usize << n)).map(|m| (0..n).map(|i| m >> i & 1 == 1).collect()).collect()
+}
+
+fn discover_api(repo: &str) -> String {
+    let mut ctors: Vec<(String, String, Vec<bool>)> = Vec::new(); // type, fn, args
+    let mut switches: Vec<(String, Vec<bool>)> = Vec::new();
+    const KNOWN_KB_OPS: [&str; 8] = ["add_word", "add_byte", "add_bit", "process_keyevent", "set_ctrl_handling", "clear", "new", "get_modifiers"];
+    for f in ["src/lib.rs", "src/scancodes/set1.rs", "src/scancodes/set2.rs"] {
+        let path = format!("{}/{}", repo, f);
+        println!("cargo:rerun-if-changed={}", path);
+        let Ok(src) = fs::read_to_string(&path) else { continue };
+        for (ty, name, mut_self, args, ret) in pub_fns(&src) {
+            let only_bools = args.len() <= 3 && args.iter().all(|a| a == "bool");
+            if !only_bools {
+                continue;
+            }
+            if !mut_self && ["ScancodeSet1", "ScancodeSet2", "Ps2Decoder"].contains(&ty.as_str()) && name != "new" && (ret == "Self" || ret == ty) {
+                for c in bool_combos(args.len()) {
+                    ctors.push((ty.clone(), name.clone(), c));
+                }
+            }
+            if mut_self && ty == "Keyboard" && !KNOWN_KB_OPS.contains(&name.as_str()) {
+                for c in bool_combos(args.len()) {
+                    switches.push((name.clone(), c));
+                }
+            }
+        }
+    }
+    let show = |name: &str, a: &[bool]| format!("{}({})", name, a.iter().map(|b| b.to_string()).collect::<Vec<_>>().join(", "));
+    let mut out = String::from("// discovered public API of the tree under test (generated by build.rs)\n");
+    for (ty, fnname) in [("ScancodeSet1", "extra_ctors_set1"), ("ScancodeSet2", "extra_ctors_set2"), ("Ps2Decoder", "extra_ctors_ps2")] {
+        let mine: Vec<_> = ctors.iter().filter(|c| c.0 == ty).collect();
+        out.push_str(&format!("pub fn {}() -> &'static [(&'static str, fn() -> pc_keyboard::{})] {{\n    &[", fnname, ty));
+        for (_, name, a) in mine {
+            out.push_str(&format!("(\"{}\", || pc_keyboard::{}::{}), ", show(name, a), ty, show(name, a)));
+        }
+        out.push_str("]\n}\n");
+    }
+    out.push_str("pub fn extra_kb_op_names() -> &'static [&'static str] {\n    &[");
+    for (name, a) in &switches {
+        out.push_str(&format!("\"{}\", ", show(name, a)));
+    }
+    out.push_str("]\n}\n/// apply the discovered operation number `$i` to any `Keyboard<_, _>`\nmacro_rules! extra_kb_op {\n    ($kb:expr, $i:expr) => {\n        match $i {\n");
+    for (i, (name, a)) in switches.iter().enumerate() {
+        out.push_str(&format!("            {} => {{ let _ = $kb.{}; }}\n", i, show(name, a)));
+    }
+    out.push_str("            _ => {}\n        }\n    };\n}\n");
+    out
+}
 
 fn main() {
     println!("cargo:rerun-if-env-changed=VERIF_REPO");
@@ -44,6 +169,40 @@ fn main() {
         out.push_str(&format!("        {} => Box::new(pc_keyboard::layouts::{}),\n", i, t));
     }
     out.push_str("        _ => panic!(\"extra layout index\"),\n    }\n}\n");
+    out.push_str(&discover_api(&repo));
+    // implementations of KeyboardLayout the harness cannot build a value of (generic adapters, types with fields):
+    // listed in the evidence of the layout properties as NOT covered
+    let mut unknown: Vec<String> = Vec::new();
+    let mut files = vec![format!("{}/src/lib.rs", repo)];
+    if let Ok(rd) = fs::read_dir(format!("{}/src/layouts", repo)) {
+        for e in rd.flatten() {
+            files.push(e.path().to_string_lossy().into_owned());
+        }
+    }
+    files.sort();
+    for f in files {
+        let Ok(src) = fs::read_to_string(&f) else { continue };
+        println!("cargo:rerun-if-changed={}", f);
+        for (i, _) in src.match_indices("KeyboardLayout for ") {
+            // only `impl … KeyboardLayout for T`, not prose
+            let line_start = src[..i].rfind('\n').map(|x| x + 1).unwrap_or(0);
+            if !src[line_start..i].trim_start().starts_with("impl") {
+                continue;
+            }
+            let rest = &src[i + "KeyboardLayout for ".len()..];
+            let t: String = rest.chars().take_while(|c| c.is_ascii_alphanumeric() || *c == '_' || *c == '&').collect();
+            let t = t.trim_start_matches('&').to_string();
+            if t.is_empty() || t == "AnyLayout" || KNOWN.contains(&t.as_str()) || extras.contains(&t) || unknown.contains(&t) {
+                continue;
+            }
+            unknown.push(t);
+        }
+    }
+    out.push_str("pub fn unmonitored_layout_impls() -> &'static [&'static str] {\n    &[");
+    for t in &unknown {
+        out.push_str(&format!("\"{}\", ", t));
+    }
+    out.push_str("]\n}\n");
     let dest = Path::new(&env::var("OUT_DIR").unwrap()).join("extra_layouts.rs");
     fs::write(dest, out).unwrap();
 }
